@@ -335,3 +335,78 @@ pub fn curve(fam: &str, seed: u64, n: usize) -> Vec<Value> {
     }
     out
 }
+
+/// curved paths with arbitrary (non-lattice) control points, arcs and arbitrary invertible
+/// transforms; the harness quantises the true outline for the specification (`quantize`)
+pub fn curve_float(fam: &str, seed: u64, n: usize) -> Vec<Value> {
+    let mut r = Rng::new(seed ^ 0xF10A7 ^ (fam.len() as u64) << 20);
+    let mut out = Vec::new();
+    for i in 0..n {
+        let mut ops = Vec::new();
+        let nops = r.range(2, 5);
+        let pt = |r: &mut Rng| ((r.frange(-1.0, 17.0) * 1000.0).round() / 1000.0, (r.frange(-1.0, 17.0) * 1000.0).round() / 1000.0);
+        for j in 0..nops {
+            match r.range(0, 10) {
+                0 if j > 0 => ops.push(json!(["Z"])),
+                0 | 1 => {
+                    let p = pt(&mut r);
+                    ops.push(json!(["M", p.0, p.1]));
+                }
+                2 | 3 => {
+                    let p = pt(&mut r);
+                    ops.push(json!(["L", p.0, p.1]));
+                }
+                4 | 5 => {
+                    let (c, p) = (pt(&mut r), pt(&mut r));
+                    ops.push(json!(["Q", c.0, c.1, p.0, p.1]));
+                }
+                6 | 7 => {
+                    let (c, d, p) = (pt(&mut r), pt(&mut r), pt(&mut r));
+                    ops.push(json!(["C", c.0, c.1, d.0, d.1, p.0, p.1]));
+                }
+                _ => {
+                    let c = ((r.frange(3.0, 13.0) * 1000.0).round() / 1000.0, (r.frange(3.0, 13.0) * 1000.0).round() / 1000.0);
+                    ops.push(json!(["A", c.0, c.1, (r.frange(1.0, 5.0) * 100.0).round() / 100.0,
+                                    (r.frange(-7.0, 7.0) * 1000.0).round() / 1000.0, (r.frange(-8.0, 8.0) * 1000.0).round() / 1000.0]));
+                }
+            }
+        }
+        // rotation by a random angle, anisotropic scale, shear, translation; kept well conditioned
+        let a = r.frange(0.0, 6.283);
+        let (sx, sy) = (r.frange(0.5, 1.3), r.frange(0.5, 1.3) * if r.chance(1, 5) { -1.0 } else { 1.0 });
+        let sh = if r.chance(1, 3) { r.frange(-0.3, 0.3) } else { 0.0 };
+        let (ca, sa) = (a.cos(), a.sin());
+        // M = rot * shear * scale
+        let m11 = ca * sx;
+        let m12 = sa * sx;
+        let m21 = (ca * sh - sa) * sy;
+        let m22 = (sa * sh + ca) * sy;
+        let f = |v: f64| (v * 10000.0).round() / 10000.0;
+        // translate so that the user-space point (8, 8) lands on the centre of the surface
+        let (m31, m32) = (8.0 - (8.0 * m11 + 8.0 * m21), 8.0 - (8.0 * m12 + 8.0 * m22));
+        let stroke = fam == "stroke-float";
+        // strokes: similarities only (uniform scale, optional mirror), so the stroke is a tube
+        let (m11, m12, m21, m22) = if stroke {
+            let mir = if sy < 0.0 { -1.0 } else { 1.0 };
+            (ca * sx, sa * sx, -sa * sx * mir, ca * sx * mir)
+        } else {
+            (m11, m12, m21, m22)
+        };
+        let (m31, m32) = (8.0 - (8.0 * m11 + 8.0 * m21), 8.0 - (8.0 * m12 + 8.0 * m22));
+        let ident = r.chance(1, 4);
+        if stroke {
+            let m = if ident { vec![1.0, 0.0, 0.0, 1.0, 0.0, 0.0] } else { vec![f(m11), f(m12), f(m21), f(m22), f(m31), f(m32)] };
+            let cap = ["Butt", "Round", "Square", "Round"][r.range(0, 3) as usize];
+            out.push(json!({"id": format!("drv-{}-{}-{}", fam, seed, i), "fam": "stroke", "kind": "stroke",
+                             "w": 16, "h": 16, "den": 1, "ops": ops,
+                             "style": {"width": (r.frange(0.6, 9.0) * 100.0).round() / 100.0, "cap": cap, "join": "Round"},
+                             "ctm": {"m": m, "mden": 1}, "quantize": true}));
+            continue;
+        }
+        let m = if ident { vec![1.0, 0.0, 0.0, 1.0, 0.0, 0.0] } else { vec![f(m11), f(m12), f(m21), f(m22), f(m31), f(m32)] };
+        out.push(json!({"id": format!("drv-{}-{}-{}", fam, seed, i), "fam": "stroke", "kind": if r.chance(1, 5) { "clip" } else { "fill" },
+                         "w": 16, "h": 16, "den": 1, "ops": ops, "rule": if r.chance(1, 2) { "NonZero" } else { "EvenOdd" },
+                         "ctm": {"m": m, "mden": 1}, "quantize": true}));
+    }
+    out
+}
